@@ -718,3 +718,142 @@ pub fn strategy() -> impl proptest::strategy::Strategy<Value = ReqCase> {
             body,
         })
 }
+
+// ------------------------------------------------------------------------------------------------
+// C17 through the real TCP transports: the request grammar's URIs (and a table of degenerate but
+// well-typed ones: empty host, user information only, bare brackets, missing ports, schemes without a
+// default port) go into `TcpTransport` and `SimpleTcpTransport` as `tower::Service<Parts>`, and into the
+// default client (`Client::build_tcp_http`). The resolver answers with an empty list or with an address
+// nobody listens on, so no request leaves the machine: an error is fine, a panic is not.
+
+pub const DEGENERATE_URIS: &[&str] = &[
+    "http://:8080/",
+    "http://:/",
+    "http://user@:80/x",
+    "http://user:pw@/",
+    "http://[::1]/",
+    "http://[::1]:/",
+    "https://[::]/",
+    "http://a.test:/",
+    "http://a.test:0/",
+    "http://a.test:65535/",
+    "ws://a.test/",
+    "custom://a.test/",
+    "custom://:1/",
+    "//a.test/x",
+    "/only/a/path",
+    "*",
+    "a.test:443",
+    ":443",
+    "http://%41.test/",
+    "http://a..test/",
+    "http://-/",
+    "http://./",
+];
+
+#[derive(Clone, Debug, Serialize, Deserialize, PartialEq)]
+pub struct TcpUriCase {
+    pub req: ReqCase,
+    /// index into DEGENERATE_URIS replacing the generated URI
+    pub special: Option<u8>,
+    /// 0 TcpTransport, 1 SimpleTcpTransport, 2 Client::build_tcp_http
+    pub via: u8,
+    /// the resolver answers with nothing (false) or with one loopback address whose port is held closed (true)
+    pub answer: bool,
+}
+
+pub struct TcpUriEngine;
+
+impl Engine for TcpUriEngine {
+    type Case = TcpUriCase;
+    fn name(&self) -> &'static str {
+        "tcpuri"
+    }
+    fn run_case(&self, c: &TcpUriCase) -> CaseReport {
+        use hyperdriver::client::conn::dns::FirstAddrExt;
+        use hyperdriver::client::conn::transport::tcp::{SimpleTcpTransport, TcpTransport, TcpTransportConfig};
+        use hyperdriver::stream::tcp::TcpStream;
+        use tower::ServiceExt;
+        let mut rep = CaseReport::default();
+        let _ = crate::panichook::take_all();
+        let uri_text = match c.special {
+            Some(i) => DEGENERATE_URIS[i as usize % DEGENERATE_URIS.len()].to_string(),
+            None => c.req.uri_string(),
+        };
+        let Ok(uri) = uri_text.parse::<http::Uri>() else {
+            rep.class("rejected-by-http-crate");
+            return rep;
+        };
+        if c.special.is_some() {
+            rep.class("degenerate-uri");
+        }
+        if uri.host() == Some("") {
+            rep.class("empty-host");
+        }
+        let rt = tokio::runtime::Builder::new_current_thread().enable_all().build().unwrap();
+        let via = c.via % 3;
+        let answer = c.answer;
+        let method = c.req.method();
+        let version = c.req.version();
+        let uri2 = uri.clone();
+        let r = std::panic::catch_unwind(std::panic::AssertUnwindSafe(|| {
+            rt.block_on(async move {
+                // an address nobody can connect to: bound, never listening
+                let holder = crate::engines::addrsort::bound_unlistened("127.0.0.1:0".parse().unwrap()).ok();
+                let addr = holder.as_ref().and_then(|h| h.local_addr().ok()).and_then(|a| a.as_socket());
+                let list = match (answer, addr) {
+                    (true, Some(a)) => vec![a],
+                    _ => vec![],
+                };
+                let mut cfg = TcpTransportConfig::default();
+                cfg.connect_timeout = Some(std::time::Duration::from_millis(300));
+                cfg.happy_eyeballs_timeout = Some(std::time::Duration::from_millis(300));
+                let resolver = crate::engines::addrsort::ListResolver(list);
+                let fut = async {
+                    match via {
+                        0 => {
+                            let t: TcpTransport<_, TcpStream> = TcpTransport::builder().with_config(cfg).with_resolver(resolver).build();
+                            let parts = http::Request::builder().method(method).version(version).uri(uri2).body(()).unwrap().into_parts().0;
+                            t.oneshot(parts).await.map(|_| ()).map_err(|e| e.to_string())
+                        }
+                        1 => {
+                            let t: SimpleTcpTransport<_, TcpStream> = SimpleTcpTransport::new(cfg, resolver.first_addr());
+                            let parts = http::Request::builder().method(method).version(version).uri(uri2).body(()).unwrap().into_parts().0;
+                            t.oneshot(parts).await.map(|_| ()).map_err(|e| e.to_string())
+                        }
+                        _ => {
+                            let mut client = hyperdriver::Client::build_tcp_http().with_timeout(std::time::Duration::from_millis(400)).build();
+                            let req = http::Request::builder().method(method).version(version).uri(uri2).body(hyperdriver::Body::empty()).unwrap();
+                            // the system resolver is only asked for names that cannot exist (.test / degenerate)
+                            client.request(req).await.map(|_| ()).map_err(|e| e.to_string())
+                        }
+                    }
+                };
+                let out = tokio::time::timeout(std::time::Duration::from_secs(3), fut).await;
+                drop(holder);
+                out.map_err(|_| ()).ok()
+            })
+        }));
+        drop(rt);
+        let desc = format!("{} {uri_text} {:?} through {}", c.req.method(), c.req.version(), ["TcpTransport", "SimpleTcpTransport", "Client::build_tcp_http"][via as usize]);
+        let panics: Vec<(String, String)> = crate::panichook::take_all();
+        for (loc, msg) in &panics {
+            if crate::panichook::in_library(loc) {
+                let file = loc.rsplit('/').next().unwrap_or(loc).split(':').next().unwrap_or("").to_string();
+                rep.violate(format!("C17/panic-in-{}/tcp-transport-uri-handling", file.trim_end_matches(".rs")), format!("{desc}: panic at {loc}: {msg}"));
+            }
+        }
+        if r.is_err() && rep.violations.is_empty() {
+            rep.internal_error = Some(format!("harness panic at {}: {}", crate::panichook::last_location(), crate::panichook::last_message()));
+        }
+        rep.class(["via-tcp-transport", "via-simple-tcp-transport", "via-default-tcp-client"][via as usize]);
+        rep.nontrivial = true;
+        rep.total_ops = 1;
+        rep
+    }
+}
+
+pub fn tcpuri_strategy() -> impl proptest::strategy::Strategy<Value = TcpUriCase> {
+    use proptest::prelude::*;
+    (strategy(), prop_oneof![2 => Just(None), 1 => (0u8..DEGENERATE_URIS.len() as u8).prop_map(Some)], prop_oneof![3 => Just(0u8), 3 => Just(1u8), 1 => Just(2u8)], any::<bool>()).prop_map(|(req, special, via, answer)| TcpUriCase { req, special, via, answer })
+}
